@@ -133,7 +133,35 @@ def translate(cls, alias, term):
         return ("lib-exc", type(e).__name__, text)
     except Exception as e:
         return ("foreign-exc", "%s@%s" % (type(e).__name__, lib.innermost_frame(e)), text)
+    # the same tree through a long-lived visitor that has seen other filters before, some of which it
+    # refused or choked on: what it emits must be what a new visitor emits
+    key = (cls, alias)
+    if key not in _LONG_LIVED:
+        _LONG_LIVED[key] = [cls(alias) if alias else cls(), 0]
+    slot = _LONG_LIVED[key]
+    slot[1] += 1
+    if slot[1] % 3 == 0:
+        try:
+            slot[0].visit(lib.parse(UPSETTING[(slot[1] // 3) % len(UPSETTING)]))
+        except Exception:
+            pass
+    try:
+        again = slot[0].visit(a)
+    except Exception as e:
+        _LONG_LIVED.pop(key, None)
+        return ("reuse-differs", "long-lived visitor raised %s: %s" % (type(e).__name__, e), text)
+    if again != out:
+        _LONG_LIVED.pop(key, None)
+        return ("reuse-differs", "new visitor -> %s ; long-lived visitor -> %s" % (out, again), text)
     return ("ok", out, text)
+
+
+_LONG_LIVED = {}
+# filters a visitor refuses or chokes on half-way (ill-typed arguments, unsupported functions, lambdas)
+UPSETTING = ["contains(title, price add 1)", "startswith(name, 5)", "geo.length(loc) gt 1", "my.fn(a, 'x') eq 1",
+             "endswith(concat(a, 'x'), b sub 2)", "tags/any(t: t eq 'x')", "indexof(name, 3) eq 1", "a eq duration'P1D'",
+             "substring(name, 'x') eq 'y'", "hassubset((1, 2), (1,))", "not_a_function(a)", "length(5) eq 1",
+             "a in ('x', contains(b, 3))", "contains('lit', name add 'x')"]
 
 
 def check_case(case):
@@ -164,6 +192,9 @@ def check_case(case):
         for alias in (None, "t"):
             rb = translate(cls, alias, ben_t)
             ra = translate(cls, alias, adv_t)
+            for r_ in (rb, ra):
+                if r_[0] == "reuse-differs":
+                    return ("reused-visitor-differs", "%s alias=%r %r: %s" % (dname, alias, r_[2], r_[1]))
             if rb[0] != "ok":
                 if ra[0] == rb[0]:
                     continue
@@ -365,9 +396,13 @@ def run_task(task, seed, acc):
         n = len(string_holes(t))
         if n <= 12:
             strings = [draw(adv_strings()) for _ in range(n)]
+            # at most one payload of tens of thousands of characters per case
+            huge = [i for i, x in enumerate(strings) if len(x) > 5000]
+            for i in huge[1:]:
+                strings[i] = strings[i][:40] + strings[i][-20:]
         else:
-            # a long list of holes: a few drawn payloads at drawn positions, the rest cycling
-            pool = [draw(adv_strings()) for _ in range(5)]
+            # a long list of holes: a few drawn payloads (none of the huge ones) cycling through it
+            pool = [x if len(x) <= 400 else x[:40] + x[-20:] for x in (draw(adv_strings()) for _ in range(5))]
             strings = [pool[(i * 7 + i // 5) % 5] if i % 3 else "v%d" % i for i in range(n)]
         fields = None
         k = draw(st.integers(0, 5))
